@@ -443,6 +443,85 @@ func (g *world) runHeld(trial int) {
 	g.emit(s, "held-adjust")
 }
 
+// Two completion tokens pending at once (C05: "every waiting item's adjust function is consulted for EVERY decision").
+// Two workers; items 0,1 execute, 2,3 sit in the worker channel, 4 (adjust function, worst priority, held), 5, 6, 7 wait.
+// Batch: 0 completes -> the dispatcher consumes the token and parks in item 4's adjust function; 1 completes and 2
+// (started meanwhile) completes: two tokens are pending when the dispatcher is released.  Three decisions follow, each
+// must consult item 4: three consultations in the batch's observation, and 5, 6, 7 are handed out in that order.
+func (g *world) runHeldTwoTokens(trial int) {
+	L := 4 + trial%3
+	opts := []Opt{{"w", 2}, {"l", L}}
+	if trial%2 == 1 {
+		opts = []Opt{{"l", L}, {"w", 2}}
+	}
+	s := newSessOpts(opts)
+	for i := 0; i < 4; i++ {
+		s.do(Stim{Op: "enq", A: 1, B: i})
+	}
+	s.do(Stim{Op: "enq", A: 9, B: 4, Adj: true})
+	s.do(Stim{Op: "enq", A: 1 + trial%2, B: 5})
+	s.do(Stim{Op: "enq", A: 2, B: 6})
+	s.do(Stim{Op: "enq", A: 3, B: 7})
+	s.do(Stim{Op: "batch", A: 4, Sub: []Stim{{Op: "fin", A: 0, B: -1}, {Op: "fin", A: 1, B: -1}, {Op: "fin", A: 2, B: -1}}})
+	s.finishAll(100)
+	s.close()
+	g.emit(s, "held-adjust-two-tokens")
+}
+
+// A pending completion is served although producers keep arriving (C09, work conservation under load).
+// One worker; 0 executes, 1 is handed off, 2 (adjust function, held) and 3 wait.  Batch: 0 completes -> the dispatcher
+// takes the token and parks in item 2's adjust function; 1 completes: its token is pending and the worker is idle;
+// K producers call Enqueue (priorities -1, -2, ... -K: each newcomer beats all earlier ones) and block at workChan.
+// Release: 2 is handed out and started; now the pending token and K arrivals compete at the dispatcher's select.  Go
+// chooses uniformly among the ready cases, so the token is served after j arrivals with probability 2^-(j+1); the item
+// popped for it is the best present one, i.e. newcomer j (or item 3 for j = 0), and it is the next item to start.
+// Returns true iff ALL K arrivals were served before the completion (probability 2^-K on the unchanged code).
+const fairK = 16
+
+func (g *world) runFairness(trial int) bool {
+	opts := []Opt{{"w", 1}, {"l", fairK + 6}}
+	if trial%2 == 1 {
+		opts = []Opt{{"l", fairK + 6}, {"w", 1}}
+	}
+	s := newSessOpts(opts)
+	s.do(Stim{Op: "enq", A: 1, B: 0})
+	s.do(Stim{Op: "enq", A: 1, B: 1})
+	s.do(Stim{Op: "enq", A: 1, B: 2, Adj: true})
+	s.do(Stim{Op: "enq", A: 5, B: 3})
+	sub := []Stim{{Op: "fin", A: 0, B: -1}, {Op: "fin", A: 1, B: -1}}
+	for i := 0; i < fairK; i++ {
+		sub = append(sub, Stim{Op: "enq", A: -(i + 1), B: 4 + i})
+	}
+	s.do(Stim{Op: "batch", A: 2, Sub: sub})
+	o := s.do(Stim{Op: "fin", A: 2, B: -1})
+	allFirst := len(o.Started) == 1 && o.Started[0] == 4+fairK-1
+	s.finishAll(200)
+	s.close()
+	// not replayed in Coq: the model lets the dispatcher receive the blocked producers in ANY order (2^K subsets); the
+	// clause is evaluated here, on the observation alone
+	g.sessions++
+	g.steps += len(s.steps)
+	return allFirst
+}
+
+// Many error subscribers (C14): n channels, one failing item, every channel receives the error once, in turn.
+func (g *world) runManySubscribers(n int) {
+	s := newSessOpts([]Opt{{"l", 2}, {"w", 1}})
+	for i := 0; i < n; i++ {
+		s.do(Stim{Op: "esub"})
+	}
+	s.do(Stim{Op: "enq", A: 1, B: 0})
+	s.do(Stim{Op: "enq", A: 1, B: 1})
+	s.do(Stim{Op: "fin", A: 0, B: 0})
+	for i := 0; i < n; i++ {
+		s.do(Stim{Op: "erecv", A: i})
+	}
+	s.do(Stim{Op: "erecv", A: 0}) // nothing more
+	s.finishAll(50)
+	s.close()
+	g.emit(s, fmt.Sprintf("subscribers-%d", n))
+}
+
 // ---------- configuration scripts: HOW the worker count and queue length are given (C09) ----------
 // Each script builds the queue from an option list (either order, one option alone = the other at its default
 // NumCPU / 2*NumCPU, repeated options, optionally ResizeQueueLength right after construction), fills it with gated
@@ -954,6 +1033,7 @@ func (g *world) runC19(tier, dir string) (map[string]any, []crash) {
 
 type burstCfg struct {
 	W, L, N int
+	First   string `json:"first,omitempty"` // "stop" / "break": that call is the VERY FIRST call on the fresh queue (N = 0)
 }
 type burstRes struct {
 	Cfg          burstCfg `json:"cfg"`
@@ -983,7 +1063,16 @@ func runBurstChild(in, out string) {
 		if trial%2 == 1 {
 			bo[0], bo[1] = bo[1], bo[0]
 		}
+		if ij, err := json.Marshal(map[string]any{"intent": c, "trial": trial}); err == nil {
+			f.Write(append(ij, '\n')) // what is being tried, should the process die in this trial
+			f.Sync()
+		}
 		q := workqueue.NewQueue(bo...)
+		if c.First == "stop" {
+			q.Stop() // no yield between NewQueue and the call: the dispatcher goroutine may not have run yet
+		} else if c.First == "break" {
+			q.Break()
+		}
 		starts := make([]atomic.Int64, c.N)
 		done := make(chan struct{})
 		go func() {
@@ -991,7 +1080,9 @@ func runBurstChild(in, out string) {
 				i := i
 				q.Enqueue(func() error { starts[i].Add(1); <-never; return nil }, workqueue.WithName(strconv.Itoa(i)))
 			}
-			q.Stop() // immediately after the last accepted call, same goroutine
+			if c.First == "" {
+				q.Stop() // immediately after the last accepted call, same goroutine
+			}
 			close(done)
 		}()
 		select {
@@ -1049,6 +1140,14 @@ func (g *world) runBursts(self, dir string, tier string) (int, []burstFailure, [
 			Ls := []int{1, 2, n, 2 * n}
 			cfgs = append(cfgs, burstCfg{W: n + g.rng.Intn(3), L: Ls[g.rng.Intn(len(Ls))], N: n})
 		}
+		// Stop / Break as the very first call on a fresh queue: a later Enqueue is refused without panic, nothing runs
+		for k := 0; k < per; k++ {
+			first := "stop"
+			if k%2 == 1 {
+				first = "break"
+			}
+			cfgs = append(cfgs, burstCfg{W: 1 + k%3, L: 1 + k%2, N: 0, First: first})
+		}
 		in := fmt.Sprintf("%s/burst-%d.json", dir, bi)
 		out := fmt.Sprintf("%s/burst-%d.jsonl", dir, bi)
 		b, _ := json.Marshal(cfgs)
@@ -1069,8 +1168,13 @@ func (g *world) runBursts(self, dir string, tier string) (int, []burstFailure, [
 			hang = true
 		}
 		n := 0
+		var lastIntent string
 		if ob, err := os.ReadFile(out); err == nil {
 			for _, line := range strings.Split(string(ob), "\n") {
+				if strings.HasPrefix(line, "{\"intent\"") {
+					lastIntent = line
+					continue
+				}
 				var r burstRes
 				if line == "" || json.Unmarshal([]byte(line), &r) != nil {
 					continue
@@ -1109,7 +1213,7 @@ func (g *world) runBursts(self, dir string, tier string) (int, []burstFailure, [
 		os.Remove(out)
 		if werr != nil || hang {
 			se := errb.String()
-			c := crash{Script: fmt.Sprintf("burst batch %d (%d trials completed)", bi, n), Done: n, Kind: "panic", Stderr: se}
+			c := crash{Script: fmt.Sprintf("burst batch %d (%d trials completed); the process died in trial %s (first = Stop/Break as the very first call on the fresh queue, then one Enqueue; N = Enqueue calls before Stop)", bi, n, lastIntent), Done: n, Kind: "panic", Stderr: se}
 			if len(se) > 1500 {
 				c.Stderr = se[:1500]
 			}
@@ -1221,11 +1325,38 @@ func main() {
 				nh = 200
 			}
 			for i := 0; i < nh; i++ {
-				g.runHeld(i)
+				if i%3 == 2 {
+					g.runHeldTwoTokens(i)
+				} else {
+					g.runHeld(i)
+				}
 			}
 			scope["held-adjust"] = fmt.Sprintf("%d runs of the held-adjust-function scenario (W=1; an arrival and a completion token become ready together while the dispatcher is parked in an adjust function)", nh)
 		}
+		if *prop == "C14" {
+			ns := []int{8, 9, 17}
+			if *tier == "thorough" {
+				ns = []int{7, 8, 9, 16, 17, 33, 64, 65, 100}
+			}
+			for _, n := range ns {
+				g.runManySubscribers(n)
+			}
+			scope["subscribers"] = fmt.Sprintf("scripts with %v error subscribers (one failing item, every channel read in turn)", ns)
+		}
 		if *prop == "C09" {
+			nf, starved := 6, 0
+			for i := 0; i < nf; i++ {
+				if g.runFairness(i) {
+					starved++
+				}
+			}
+			scope["arrivals-vs-completion"] = fmt.Sprintf("%d trials: a completion token and %d blocked producers compete at the dispatcher; in %d trials all arrivals were served first", nf, fairK, starved)
+			if starved >= 2 {
+				g.w.Extra["burst_failures"] = []burstFailure{{Clause: "completion-starved-by-arrivals",
+					Detail: fmt.Sprintf("in %d of %d trials the dispatcher served all %d pending arrivals before the pending worker-done signal (worker idle, item waiting); on the unchanged code each such trial has probability 2^-%d", starved, nf, fairK, fairK),
+					Res:    burstRes{Cfg: burstCfg{W: 1, L: fairK + 6, N: fairK}, Trial: starved},
+					Sig:    "fairness:completion-starved-by-arrivals"}}
+			}
 			for _, c := range configScripts() {
 				g.runConfig(c)
 			}
